@@ -1,4 +1,5 @@
 //! Harness binary for the DIMACS-family parsers (flussab-cnf).
+mod c03;
 mod c06;
 mod c07;
 mod catalogue;
@@ -37,6 +38,7 @@ fn main() {
         let v = if v.get("replay").is_some() { v["replay"].clone() } else { v };
         let subject = subjects::by_name(v["subject"].as_str().unwrap());
         let (violated, text) = match v["property"].as_str().unwrap_or("") {
+            "C03" => c03::replay(&v),
             "C06" => c06::replay(&v),
             "C07" => c07::replay(&v),
             "C01" => generic::c01_replay(subject.as_ref(), &v),
@@ -154,6 +156,10 @@ fn main() {
             }
             report.traces = report.evaluations;
             "every well-formed corpus document x streaming subject, delivered by a source that hands out at most the rest of the current line per read (choice: any shorter amount; deviation bounded) x chunk sizes; at the moment each item is returned the source must not have been asked beyond the line that completes the item (completing line = line containing the end of the shortest prefix on which the parser, given end of input, returns the same item)".into()
+        }
+        "C03" => {
+            c03::run(tier, &mut report, &|kind| gen::inputs(kind, tier).all());
+            c03::RULE.into()
         }
         "C06" => {
             c06::run(tier, &mut report, &|kind| gen::inputs(kind, tier).all());
